@@ -212,4 +212,13 @@ def compare_update(kind, body):
 
 
 def _norm(x):
-    return json.loads(json.dumps(x, sort_keys=True).replace('"null"', 'null')) if x else {}
+    """the string "null" as a VALUE and JSON null compare equal (renderers differ); keys are left alone"""
+
+    def walk(v):
+        if isinstance(v, dict):
+            return {k: walk(w) for k, w in v.items()}
+        if isinstance(v, list):
+            return [walk(w) for w in v]
+        return None if v == 'null' else v
+
+    return walk(json.loads(json.dumps(x, sort_keys=True))) if x else {}
